@@ -65,6 +65,7 @@ enum {
     F_LONGNAME_DESCEND, /* 257+ byte name, node descended into: accepted (recorded, not asserted) */
     F_SCRIPTED,         /* literal regression documents (D3 family) */
     F_ROOT_NOT_DESCENDED,
+    F_CARELESS_CALLBACK, /* the callback ignored the depth-limit failure of traverse */
     F_NFLAGS
 };
 
@@ -102,6 +103,7 @@ static size_t s_opt_depth, s_eff_depth;
 static int s_exp[MAX_NODES], s_nexp, s_k;
 static bool s_ref_aborted;
 static bool s_lenient, s_failed, s_abort_done, s_desync, s_scripted, s_text_gt, s_text_gt_emitted;
+static bool s_careless, s_swallowed; /* the descend action ignores a failed traverse (only for documents deeper than the limit) */
 static int s_last_cb, s_pending, s_target, s_chain_leaf;
 static uint64_t s_ncb, s_nbody, s_nskip, s_ndescend;
 static struct frame s_frames[MAX_NODES + 1];
@@ -790,6 +792,10 @@ static void commit_pending(int next) {
 }
 
 static int on_node(struct aws_xml_node *node, void *ud) {
+    if (s_swallowed && !s_failed) {
+        s_failed = true;
+        mon_violation("C12:callback-after-error", "a callback was delivered after aws_xml_node_traverse had reported the depth-limit error (which the previous callback ignored); %s", witness());
+    }
     ++s_ncb;
     if (s_desync) {
         return AWS_OP_SUCCESS; /* malformed document: callbacks are not judged */
@@ -943,6 +949,13 @@ static int on_node(struct aws_xml_node *node, void *ud) {
             ++s_ndescend;
             s_frames[ni + 1].node = ni;
             int rc = aws_xml_node_traverse(node, on_node, &s_frames[ni + 1]);
+            if (rc && s_careless) {
+                /* a careless callback: `aws_xml_node_traverse(node, cb, ud); return AWS_OP_SUCCESS;` - the failure must be
+                 * remembered by the parser itself: aws_xml_parse still has to report it and nothing more may be delivered */
+                mon_flag(F_CARELESS_CALLBACK);
+                s_swallowed = true;
+                return AWS_OP_SUCCESS;
+            }
             if (rc) {
                 if (s_failed || s_abort_done || s_lenient || s_expect != X_ACCEPT) {
                     return AWS_OP_ERR;
@@ -979,6 +992,9 @@ static uint64_t fnv(const uint8_t *p, size_t n) {
 static bool run_case(uint64_t c) {
     gen_case(c);
     reference();
+    s_careless = s_kind == K_DEEP && s_expect == X_REJECT && mon_chance(&mon_case_rng, 1, 2);
+    s_swallowed = false;
+    mon_fp(s_careless);
     s_doc_len = s_len;
     s_doc = malloc(s_doc_len ? s_doc_len : 1); /* exact size, no terminator: ASan sees any over-read */
     memcpy(s_doc, s_buf, s_doc_len);
@@ -1174,6 +1190,7 @@ int main(int argc, char **argv) {
         "long_name_descend_accepted",
         "scripted_regression_document",
         "root_read_as_body_or_skipped",
+        "callback_ignored_depth_limit_failure",
     };
     for (int i = 0; i < F_NFLAGS; ++i) {
         mon_flag_name(i, names[i]);
